@@ -20,6 +20,8 @@ type (
 		totalQPSLimiterLock   sync.RWMutex
 		handlerQPSLimiter     map[string]*qpsLimiter
 		handlerQPSLimiterLock sync.RWMutex
+		// sessions that hold a connection slot
+		admitted sync.Map
 	}
 	// LimitConfig overload limitation condition
 	LimitConfig struct {
@@ -68,8 +70,9 @@ func (o *Overloader) PostDial(sess erpc.PreSession, isRedial bool) *erpc.Status 
 
 // PostAccept checks connection overload.
 // If overload, print error log and close the connection.
-func (o *Overloader) PostAccept(_ erpc.PreSession) *erpc.Status {
+func (o *Overloader) PostAccept(sess erpc.PreSession) *erpc.Status {
 	if o.takeConn() {
+		o.admitted.Store(sess, struct{}{})
 		return nil
 	}
 	msg := fmt.Sprintf("connection overload, limit=%d, now=%d",
@@ -79,8 +82,12 @@ func (o *Overloader) PostAccept(_ erpc.PreSession) *erpc.Status {
 }
 
 // PostDisconnect releases connection count.
-func (o *Overloader) PostDisconnect(_ erpc.BaseSession) *erpc.Status {
-	o.releaseConn()
+func (o *Overloader) PostDisconnect(sess erpc.BaseSession) *erpc.Status {
+	// a rejected connection is disconnected too: release only the slot of an admitted session
+	if _, ok := o.admitted.Load(sess); ok {
+		o.admitted.Delete(sess)
+		o.releaseConn()
+	}
 	return nil
 }
 
